@@ -14,27 +14,24 @@
      live h x, covered h o, documented,
      valid_hist                             Proofs/C03Hist.v
 
-   Covered operation language of op_wf / history_wf (Proofs/C03Hist.v `covered`): is_rooted / is_unrooted
-   setters, new_child, insert_new_child, remove_child (plain), Edge.collapse, deroot,
-   collapse_basal_bifurcation, encode_bipartitions (structural effect, all flags),
-   suppress_unifurcations, collapse_unweighted_edges, reseed_at and reroot_at_node (ANY live node, all
-   flags, including the leaf case F19), reroot_at_edge, to_outgroup_position WITHOUT unifurcation
-   suppression, prune_subtree (all flags), filter_leaf_nodes, prune_leaves_without_taxa, retain_taxa,
-   prune_taxa restricted to leaves (all flags, recursive or not; the fuel of the model's while-loop is
-   shown to suffice), ladderize, reorder.
-
-   Not proved here (model + correspondence check only), hence the suffix _partial on op_wf and
-   history_wf: OAddChild/OInsertChild of a detached subtree as history steps (proved as primitives
-   below), ORemoveChild with suppress_unifurcations=True, OSetChildNodes, OSetParentNode,
-   OCollapseClade, OPolytomizeRoot, OToOutgroup with suppress_unifurcations=True (genuinely broken in
-   the library, see the harness findings), ORerootAtMidpoint, OResolvePolytomies, OPruneNodes,
-   OPruneTaxa with is_apply_filter_to_internal_nodes=True, ORandomlyRotate, ORandomlyReorient,
-   OShuffleTaxa, OEdgeInvert (refuted as a stand-alone operation, see edge_invert_alone_not_wf). *)
+   op_wf / history_wf cover EVERY operation of Model/HeapOps.v `op` (Proofs/C03Hist2.v `covered2`), on
+   arguments that are live nodes of the current tree (detached subtrees for add_child / insert_child /
+   set_child_nodes), for all flag values, scripts that do not run out (HFuel is excluded by
+   hypothesis exactly there), with three exclusions, each of which is FALSE and proved so:
+     - OEdgeInvert as a stand-alone operation                       edge_invert_alone_not_wf
+     - OToOutgroup with suppress_unifurcations=True when the outgroup is the seed's only child or
+       itself has exactly one child                                 to_outgroup_su_refuted_seed / _unary
+     - ORandomlyReorient when it picks a leaf that is the seed's only child (same defect)
+   op_wf_documented_errors is the earlier, finer statement for 23 operation kinds: which exception,
+   and that the heap is untouched / reduced to the seed alone. *)
 From Coq Require Import ZArith List Bool Permutation.
 From DV Require Import Model.PyPrims Model.Tree Model.Heap Model.HeapOps Model.C03Spec
   Proofs.C03Base Proofs.C03Abs Proofs.C03Local Proofs.C03Prims Proofs.C03Collapse Proofs.C03Suppress
   Proofs.C03Reseed Proofs.C03Order Proofs.C03Ops Proofs.C03SpecLinks Proofs.C03Ops2 Proofs.C03Unweighted
-  Proofs.C03PruneLoops Proofs.C03Hist Proofs.C03Thms.
+  Proofs.C03PruneLoops Proofs.C03Hist Proofs.C03Thms Proofs.C03More Proofs.C03More2 Proofs.C03More3
+  Proofs.C03SetKids Proofs.C03RemoveSu Proofs.C03Resolve Proofs.C03Midpoint Proofs.C03Hist2 Proofs.C03Thms2
+  Proofs.C03Trav Proofs.C03PruneSpec Proofs.C03Bip.
+From DV Require Import Model.C03Bip.
 Import ListNotations.
 Open Scope Z_scope.
 
@@ -139,18 +136,210 @@ Print Assumptions edge_invert_alone_not_wf.
    anything (heap unchanged), or - for the leaf-pruning family - the exception hit when the node to
    remove is the seed, which leaves a well-formed tree consisting of the seed alone (`lone`).
    Never out of fuel.  _partial: see the list at the top. *)
-Theorem op_wf_partial : forall h o,
+Theorem op_wf_documented_errors : forall h o,
   WF h -> covered h o ->
   exists h', WF h' /\ (run_op o h = HOk h' \/ exists e, run_op o h = HErr e h' /\ raises h o e h').
 Proof. exact op_wf_l. Qed.
-Print Assumptions op_wf_partial.
+Print Assumptions op_wf_documented_errors.
 
-(* The invariant over every finite history of covered operations (an exception does not stop the
-   client: it goes on with the state left behind). *)
-Theorem history_wf_partial : forall ops h,
-  WF h -> valid_hist ops h -> exists h', run_hist ops h = Some h' /\ WF h'.
-Proof. exact history_wf_l. Qed.
-Print Assumptions history_wf_partial.
+(* Every operation of the language, on arguments in its domain (covered2), ends - by returning or by
+   raising - in a well-formed heap; never out of fuel. *)
+Theorem op_wf : forall h o,
+  WF h -> covered2 h o ->
+  exists h', WF h' /\ (run_op o h = HOk h' \/ exists e, run_op o h = HErr e h').
+Proof. exact op_wf2_l. Qed.
+Print Assumptions op_wf.
+
+(* The invariant over every finite history (an exception does not stop the client: it goes on with
+   the state left behind). *)
+Theorem history_wf : forall ops h,
+  WF h -> valid_hist2 ops h -> exists h', run_hist ops h = Some h' /\ WF h'.
+Proof. exact history_wf2_l. Qed.
+Print Assumptions history_wf.
+
+(* the two argument classes excluded for to_outgroup_position(suppress_unifurcations=True) are real
+   failures of the transcribed code (and of the library: known findings) *)
+Theorem to_outgroup_su_refuted_seed :
+  exists h og h', WF h /\ live h og /\ to_outgroup_position og false true h = HOk h' /\ ~ WF h'.
+Proof. exact C03More2.to_outgroup_su_refuted_seed. Qed.
+Print Assumptions to_outgroup_su_refuted_seed.
+
+Theorem to_outgroup_su_refuted_unary :
+  exists h og e h', WF h /\ live h og /\ to_outgroup_position og false true h = HErr e h' /\ e = ValueErr.
+Proof. exact C03More2.to_outgroup_su_refuted_unary. Qed.
+Print Assumptions to_outgroup_su_refuted_unary.
+
+(* removing ANY node id from its parent (live, nested, repeated, garbage): prune_nodes and
+   prune_taxa with the internal-node filter finish with a well-formed tree *)
+Theorem prune_nodes_any : forall nodes plwt ub su h,
+  WF h -> finishes (prune_nodes nodes plwt ub su h) WF [OtherErr; ValueErr; AttrErr].
+Proof. exact prune_nodes_finishes. Qed.
+Print Assumptions prune_nodes_any.
+
+Theorem prune_taxa_any : forall taxa ub su ol oi h,
+  WF h -> finishes (prune_taxa taxa ub su ol oi h) WF [AttrErr; ValueErr].
+Proof. exact prune_taxa_finishes. Qed.
+Print Assumptions prune_taxa_any.
+
+(* reroot_at_midpoint for ANY taxon pair: completes well formed, or raises before touching the heap *)
+Theorem reroot_at_midpoint_wf : forall tx1 tx2 ub su cb h,
+  WF h ->
+  (exists h', reroot_at_midpoint tx1 tx2 ub su cb h = HOk h' /\ WF h') \/
+  (exists e, reroot_at_midpoint tx1 tx2 ub su cb h = HErr e h /\ In e [AttrErr; TypeErr; AssertErr]).
+Proof. exact reroot_at_midpoint_finishes. Qed.
+Print Assumptions reroot_at_midpoint_wf.
+
+(* resolve_polytomies: deterministic branch, and the rng branch with ANY script *)
+Theorem resolve_polytomies_det_wf : forall limit ub h t h',
+  WF h -> abs h = Some t ->
+  (resolve_polytomies limit None ub h = HOk h' \/ resolve_polytomies limit None ub h = HErr IndexErr h') ->
+  exists t', abs h' = Some t' /\ Permutation (leaf_taxa t') (leaf_taxa t).
+Proof. exact resolve_polytomies_det_leaf_taxa. Qed.
+Print Assumptions resolve_polytomies_det_wf.
+
+Theorem resolve_polytomies_rng_wf : forall limit sc ub h,
+  WF h ->
+  resolve_polytomies limit (Some sc) ub h = HFuel \/
+  finishes (resolve_polytomies limit (Some sc) ub h) WF [AttrErr; AssertErr; ValueErr].
+Proof. exact resolve_polytomies_rng_finishes. Qed.
+Print Assumptions resolve_polytomies_rng_wf.
+
+(* remove_child(suppress_unifurcations=True): the leaf taxa that go are those of the removed
+   subtree; the only possible gain is p's own entry when ci was its only child *)
+Theorem remove_child_su_refines : forall h t p ci,
+  WFt h t -> In p (ids t) -> In ci (kids h p) ->
+  exists h' t' c0 sub extra,
+    remove_child p ci true h = HOk h' /\ WFt h' t' /\ next h' = next h /\ rooted h' = rooted h /\
+    t = plug c0 sub /\ t_id sub = ci /\ cpar c0 None = Some p /\
+    Permutation (extra ++ leaf_taxa t) (leaf_taxa sub ++ leaf_taxa t') /\
+    (extra = [] \/ (extra = [taxon h p] /\ kids h p = [ci])) /\
+    (forall j, In j (ids t') -> In j (ids t)).
+Proof. exact remove_child_su_wf. Qed.
+Print Assumptions remove_child_su_refines.
+
+Theorem polytomize_root_refines : forall u h t,
+  WFt h t ->
+  exists h' t', polytomize_root u h = HOk h' /\ WFt h' t' /\ next h' = next h /\
+    (u = false -> rooted h' = rooted h) /\
+    Permutation (leaf_taxa t') (leaf_taxa t) /\ (forall j, In j (ids t') -> In j (ids t)).
+Proof. exact polytomize_root_wf. Qed.
+Print Assumptions polytomize_root_refines.
+
+(* Node.collapse_clade: the node keeps exactly the leaves of its subtree as children *)
+Theorem collapse_clade_refines : forall h t ci,
+  WF h -> abs h = Some t -> In ci (ids t) ->
+  exists h' c s, t = plug c s /\ t_id s = ci /\ collapse_clade ci h = HOk h' /\ WF h' /\
+    abs h' = Some (plug c (spec_clade s)) /\
+    Permutation (leaf_taxa (plug c (spec_clade s))) (leaf_taxa t).
+Proof. exact C03SetKids.collapse_clade_refines. Qed.
+Print Assumptions collapse_clade_refines.
+
+(* the parent_node setter on a live non-seed node: detaches (None) or moves it below a live node
+   outside its own subtree *)
+Theorem parent_node_setter_wf : forall h t ci np,
+  WFt h t -> In ci (ids t) -> ci <> seed h ->
+  match np with None => True | Some q2 => In q2 (ids t) /\ ~ In q2 (subtree_ids h ci) end ->
+  WF (set_parent_node ci np h).
+Proof. exact set_parent_node_wf. Qed.
+Print Assumptions parent_node_setter_wf.
+
+(* ---- the traversal clause: the machines that walk the child POINTERS from the seed (pre-order,
+   post-order, level-order, leaf iteration of Node.*_iter) terminate within the stated fuel and visit
+   exactly the live nodes, each once, in the structural orders of the abstract tree ---- *)
+Theorem traversals_visit_live : forall h,
+  WF h ->
+  exists t, abs h = Some t /\
+    pre_run (size t) h [seed h] = Some (pre_ids t) /\
+    post_run (2 * size t) h [(seed h, false)] = Some (post_ids t) /\
+    (exists lo, level_run (size t) h [seed h] = Some lo /\ Permutation lo (pre_ids t)) /\
+    leaf_run (2 * size t) h [(seed h, false)] = Some (leaf_ids t) /\
+    NoDup (pre_ids t) /\ Permutation (post_ids t) (pre_ids t) /\
+    (forall x, In x (pre_ids t) <-> live h x) /\
+    (forall x, In x (leaf_ids t) <-> (live h x /\ kids h x = [])).
+Proof. exact C03Trav.traversals_visit_live. Qed.
+Print Assumptions traversals_visit_live.
+
+Theorem traversals_once : forall h t,
+  WF h -> abs h = Some t ->
+  NoDup (pre_ids t) /\ NoDup (post_ids t) /\ NoDup (level_ids t) /\ NoDup (leaf_ids t).
+Proof. exact C03Trav.traversals_once. Qed.
+Print Assumptions traversals_once.
+
+(* ---- the update_bipartitions clause (Model/C03Bip.v: leafset masks, enc_list = the encoding list
+   as (owner edge, mask) in post-order) ---- *)
+
+(* suppress_unifurcations(update_bipartitions=True), the one incremental maintainer: applied to a
+   current encoding it yields exactly the fresh encoding of the tree it leaves *)
+Theorem update_bipartitions_fresh_suppress : forall h t stored,
+  WF h -> abs h = Some t -> stored = enc_list t ->
+  exists h' t', suppress_unifurcations h = HOk h' /\ abs h' = Some t' /\
+    su_enc_incremental t stored = enc_list t' /\ t' = spec_su t.
+Proof. exact suppress_bipartitions_fresh_l. Qed.
+Print Assumptions update_bipartitions_fresh_suppress.
+
+(* ... a fresh encoding WITHOUT basal collapse: the default encode_bipartitions() may differ *)
+Theorem suppress_incremental_vs_default_refuted :
+  exists t, NoDup (ids t) /\
+    su_enc_incremental t (enc_list t) <> enc_list (spec_encode true true true t).
+Proof. exact suppress_incremental_vs_default_refuted_l. Qed.
+Print Assumptions suppress_incremental_vs_default_refuted.
+
+(* every other operation asked to update bipartitions is the same operation without the flag
+   followed by encode_bipartitions with the flags it implies, which rebuilds all masks and the list
+   from the structure (enc_list of the tree it leaves) *)
+Theorem update_bipartitions_is_encode :
+  (forall n su h, prune_subtree n true su h = hbind (prune_subtree n false su h) (encode_structural su true)) /\
+  (forall keep rc su h, filter_leaf_nodes keep rc true su h = hbind (filter_leaf_nodes keep rc false su h) (encode_structural su true)) /\
+  (forall rc su h, prune_leaves_without_taxa rc true su h = hbind (prune_leaves_without_taxa rc false su h) (encode_structural su true)) /\
+  (forall thr h, collapse_unweighted_edges thr true h = hbind (collapse_unweighted_edges thr false h) (encode_structural true true)) /\
+  (forall limit sc h, resolve_polytomies limit sc true h = hbind (resolve_polytomies limit sc false h) (encode_structural true true)) /\
+  (forall n su cb h, reroot_at_node n true su cb h = hbind (reroot_at_node n false su cb h) (encode_structural su cb)) /\
+  (forall n cb su h, reseed_at n true cb su h = reseed_at n false cb su h).
+Proof.
+  repeat split; intros;
+    [apply prune_subtree_ub|apply filter_leaf_nodes_ub|apply prune_leaves_without_taxa_ub
+    |apply collapse_unweighted_edges_ub|apply resolve_polytomies_ub|apply reroot_at_node_ub].
+Qed.
+Print Assumptions update_bipartitions_is_encode.
+
+(* ---- the leaf-taxon clause for the pruning family: nothing new appears (a), every leaf the call
+   was not asked to remove stays a leaf with its taxon (b), every leaf that is gone was asked for
+   (c), every leaf that was asked for is gone (d) ---- *)
+Theorem filter_leaf_nodes_leaf_taxa : forall keep rec ub su h t h',
+  WF h -> abs h = Some t -> filter_leaf_nodes keep rec ub su h = HOk h' ->
+  exists t', abs h' = Some t' /\ WFt h' t' /\ pruned h t (fun j => ~ In j keep) h' t'.
+Proof. exact C03PruneSpec.filter_leaf_nodes_leaf_taxa. Qed.
+Print Assumptions filter_leaf_nodes_leaf_taxa.
+
+Theorem prune_leaves_without_taxa_leaf_taxa : forall rec ub su h t h',
+  WF h -> abs h = Some t -> prune_leaves_without_taxa rec ub su h = HOk h' ->
+  exists t', abs h' = Some t' /\ WFt h' t' /\ pruned h t (fun j => taxon h j = None) h' t'.
+Proof. exact C03PruneSpec.prune_leaves_without_taxa_leaf_taxa. Qed.
+Print Assumptions prune_leaves_without_taxa_leaf_taxa.
+
+Theorem prune_taxa_leaf_taxa : forall taxa ub su ol h t h',
+  WF h -> abs h = Some t -> prune_taxa taxa ub su ol false h = HOk h' ->
+  exists t', abs h' = Some t' /\ WFt h' t' /\ pruned h t (asked_pt taxa ol h) h' t'.
+Proof. exact C03PruneSpec.prune_taxa_leaf_taxa. Qed.
+Print Assumptions prune_taxa_leaf_taxa.
+
+Theorem retain_taxa_leaf_taxa : forall ns taxa ub su h t h',
+  WF h -> abs h = Some t -> retain_taxa ns taxa ub su h = HOk h' ->
+  exists t', abs h' = Some t' /\ WFt h' t' /\
+    pruned h t (fun j => (exists x, taxon h j = Some x /\ In x ns /\ ~ In x taxa) \/ taxon h j = None) h' t'.
+Proof. exact C03PruneSpec.retain_taxa_leaf_taxa. Qed.
+Print Assumptions retain_taxa_leaf_taxa.
+
+(* as a multiset: the leaf taxa of the result are those of the kept original leaves plus the taxa
+   of nodes that were internal and became leaves *)
+Theorem prune_family_leaf_multiset : forall h t (asked : Z -> Prop) (keptb : Z -> bool) h' t',
+  WFt h t -> WFt h' t' -> pruned h t asked h' t' ->
+  (forall j, keptb j = true -> ~ asked j) -> (forall j, keptb j = false -> asked j) ->
+  exists rest,
+    Permutation (leaf_taxa t') (map (taxon h) (filter keptb (leaf_ids t)) ++ map (taxon h) rest) /\
+    (forall j, In j rest -> In j (ids t) /\ ~ In j (leaf_ids t) /\ In j (leaf_ids t')).
+Proof. exact pruned_multiset. Qed.
+Print Assumptions prune_family_leaf_multiset.
 
 (* ---- refinement to the rose-tree specifications, with the leaf-taxon multiset ---- *)
 
@@ -287,3 +476,10 @@ Theorem example_history_runs :
                                T 10 (Some 9) None (Some 4) []]).
 Proof. exact ex_hist_runs. Qed.
 Print Assumptions example_history_runs.
+
+(* a valid history of the FULL language: detach and re-attach, parent_node setter, remove_child with
+   suppression, collapse_clade, resolve_polytomies, midpoint re-rooting, prune_nodes with repeated and
+   unknown ids (raises), prune_taxa on internal nodes, polytomize_root, shuffle_taxa *)
+Theorem example_full_history_valid : valid_hist2 ex_hist2 (of_tree ex_tree None).
+Proof. exact ex_hist2_valid. Qed.
+Print Assumptions example_full_history_valid.
